@@ -6,6 +6,7 @@
   `Val.wf` says the string keys of every dict are pairwise distinct (true of every Python dict).
 -/
 import MTVerif.Lemmas.ShrinkSound
+import MTVerif.Lemmas.ShrinkPerm
 namespace MT.C04
 open MT
 
@@ -48,6 +49,21 @@ theorem eqv_sound (a b : Ty) (h : Ty.eqv a b = true) (hb : b.wf = true) (v : Val
 /-! Termination ("inference terminates without error"): `shrink`, `getType` are total Lean functions;
     `shrink`'s well-founded recursion is justified in Model/Infer.lean (`termination_by sizeL ts`),
     i.e. every recursive call of shrink_types / shrink_typed_dict_types is on strictly smaller material. -/
+
+/-- C04, order / multiplicity clause: the type inferred for a collection of values does not depend on the order or the
+    multiplicity in which the values were seen — two collections with the same members give types that are equal as Python
+    compares types (`==`: union members as a set, TypedDict fields as a dict, recursively), hence with the same members. -/
+theorem infer_order_independent (k : Nat) (vs vs' : List Val) (hw : wfL vs = true) (h : ∀ v, v ∈ vs ↔ v ∈ vs') :
+    Ty.eqv (infer k vs) (infer k vs') = true := by
+  unfold infer
+  rw [getTypes_eq_map, getTypes_eq_map]
+  exact shrink_setEq k _ (fun t ht => by rw [← getTypes_eq_map] at ht; exact getTypes_wf k vs hw t ht) _ (SetEq.map _ h)
+
+/-- … and so does every value get the same verdict from both -/
+theorem infer_order_independent_members (k : Nat) (vs vs' : List Val) (hw : wfL vs = true) (hw' : wfL vs' = true)
+    (h : ∀ v, v ∈ vs ↔ v ∈ vs') (x : Val) : conforms sub ao (infer k vs) x = conforms sub ao (infer k vs') x := by
+  rw [Bool.eq_iff_iff]
+  exact Ty.eqv_sound sub ao _ _ (infer_order_independent k vs vs' hw h) (shrink_wf k _ (getTypes_wf k vs' hw')) x
 
 /-! non-vacuity: the hypotheses are met by non-trivial inputs -/
 example : (Val.dict [(.str "a", .inst intC), (.str "b", .list [.inst noneC, .dict [(.str "x", .func)]])]).wf = true := by
